@@ -344,7 +344,7 @@ pub fn configs(tier: Tier) -> Vec<InCfg> {
 
 pub fn run(tier: Tier) -> i32 {
     let mut ck = Check::new("C12", tier, Duration::from_secs(if tier == Tier::Quick { 50 } else { 1800 }));
-    let ecfg = ExploreCfg { max_dev: 1, max_execs: if tier == Tier::Quick { 600_000 } else { 10_000_000 }, ..Default::default() };
+    let ecfg = ExploreCfg { max_dev: 1, max_execs: if tier == Tier::Quick { 1_500_000 } else { 10_000_000 }, ..Default::default() };
     for (i, c) in configs(tier).iter().enumerate() {
         ck.explore::<In>("inbound", i, c, &ecfg);
     }
